@@ -563,6 +563,7 @@ func runC10(p *core.Prog, r *core.Report) {
 		})
 		r.Check(ok, "C10.R3", "listSnapshots/kind", "files with Partial set go to Partials, the others to FullKVFiles", "classification by Partial not found or inverted", p.Pos(fn.Pos()))
 	})
+	r.Guard("C10.R2", "probes", "existence probes and listing retries", func() { checkExistenceProbes(p, r, "C10.R2") })
 	r.Guard("C10.R2", "file-kind", "full and partial file descriptors are not mixed up", func() {
 		complete, partial := p.FuncObj(pkgStore, "NewCompleteFileInfo"), p.FuncObj(pkgStore, "NewPartialFileInfo")
 		// the two constructors have the same signature; each store kind saves and loads through its own
@@ -650,4 +651,89 @@ func reachFromBlock(fn *ssa.Function, b *ssa.BasicBlock, target ssa.Instruction)
 		stack = append(stack, x.Succs...)
 	}
 	return false
+}
+
+// checkExistenceProbes (C10.R2, C07.R1): the probes that decide whether a snapshot exists ask for exactly the name
+// Save writes: full = <upTo>-<module initial block>.kv, partial = <to>-<from>.partial (the two printers take the same
+// argument type), and hand the object store's answer back unchanged.
+func checkExistenceProbes(p *core.Prog, r *core.Report, rule string) {
+	for _, w := range []struct {
+		fn, printer string
+		startField  string // receiver field expected as range start ("" = first block parameter)
+	}{{"Config.ExistsFullKV", "FullStateFileName", "moduleInitialBlock"}, {"Config.ExistsPartialKV", "PartialFileName", ""}} {
+		fn := p.Func(pkgStore, w.fn)
+		r.Touch(core.FuncName(fn))
+		ok := false
+		for _, c := range core.FindInstrs(fn, core.IsCallTo(p.FuncObj(pkgStore, w.printer))) {
+			arg := c.(ssa.CallInstruction).Common().Args[0]
+			nr, isCall := arg.(*ssa.Call)
+			if !isCall || core.CommonCallee(nr.Common()) != p.FuncObj(pkgBlock, "NewRange") {
+				continue
+			}
+			a0, a1 := core.SkipConv(nr.Call.Args[0]), core.SkipConv(nr.Call.Args[1])
+			last := fn.Params[len(fn.Params)-1]
+			okStart := false
+			if w.startField != "" {
+				f, _ := core.LoadedField(a0)
+				okStart = f != nil && f.Name() == w.startField
+			} else {
+				okStart = a0 == ssa.Value(fn.Params[len(fn.Params)-2])
+			}
+			// the name probed is the one returned to FileExists
+			okUse := false
+			for _, fe := range core.FindInstrs(fn, func(in ssa.Instruction) bool {
+				cc, isC := in.(ssa.CallInstruction)
+				return isC && cc.Common().IsInvoke() && cc.Common().Method.Name() == "FileExists"
+			}) {
+				args := fe.(ssa.CallInstruction).Common().Args
+				if args[len(args)-1] == c.(ssa.Value) {
+					okUse = true
+				}
+			}
+			ok = okStart && a1 == ssa.Value(last) && okUse
+		}
+		// answer returned unchanged (value and error)
+		okRet := false
+		core.Instrs(fn, func(in ssa.Instruction) {
+			rt, isRet := in.(*ssa.Return)
+			if !isRet || len(rt.Results) != 2 {
+				return
+			}
+			e0, ok0 := rt.Results[0].(*ssa.Extract)
+			e1, ok1 := rt.Results[1].(*ssa.Extract)
+			if ok0 && ok1 && e0.Tuple == e1.Tuple && e0.Index == 0 && e1.Index == 1 {
+				okRet = true
+			}
+		})
+		r.Check(ok && okRet, rule, w.fn+"/name", "the existence probe asks the object store for the name Save writes for that range and kind, and returns the store's answer (and error) unchanged", fmt.Sprintf("name ok=%v, answer returned unchanged=%v", ok, okRet), p.Pos(fn.Pos()))
+	}
+	// a retried listing starts from an empty list (a failed attempt may have accumulated part of it)
+	ls := p.Func(pkgStore, "Config.ListSnapshotFiles")
+	okReset := false
+	for _, cl := range core.WithClosures(ls) {
+		if cl == ls {
+			continue
+		}
+		// the retry closure: stores nil to the captured `files` before calling Walk
+		var walk ssa.Instruction
+		core.Instrs(cl, func(in ssa.Instruction) {
+			if cc, ok := in.(ssa.CallInstruction); ok && cc.Common().IsInvoke() && cc.Common().Method.Name() == "Walk" {
+				walk = in
+			}
+		})
+		if walk == nil {
+			continue
+		}
+		_, must := core.MustPassBefore(cl, func(in ssa.Instruction) bool {
+			st, ok := in.(*ssa.Store)
+			if !ok {
+				return false
+			}
+			k, isK := st.Val.(*ssa.Const)
+			_, isFV := st.Addr.(*ssa.FreeVar)
+			return isK && k.IsNil() && isFV
+		}, func(in ssa.Instruction) bool { return in == walk })
+		okReset = must
+	}
+	r.Check(okReset, rule, "ListSnapshotFiles/reset-per-attempt", "each retry of the listing starts from an empty result (files accumulated by a failed attempt are dropped)", "the retry closure does not reset the result before walking", p.Pos(ls.Pos()))
 }
